@@ -104,14 +104,20 @@ def computeOutflow (it : Nat → K) (n : Nat) (inflow : Nat → Nat → K) (pdf 
   let obc := cohortScaleByT Gen.outflowAnnualSub obcPerPeriod (fun t => 1 / dt it n t)
   (obc, sumCohorts n obc)
 
-/-- `InflowDrivenDSM.compute` -/
-def inflowDriven (it : Nat → K) (n : Nat) (inflow : Nat → Nat → K) (sf : Nat → Nat → Nat → K) :
+/-- `InflowDrivenDSM.compute`, given the survival table and the outflow table the lifetime model
+hands out (`lifetime_model.sf`, `lifetime_model.pdf`) -/
+def inflowDrivenWith (it : Nat → K) (n : Nat) (inflow : Nat → Nat → K) (sf pdf : Nat → Nat → Nat → K) :
     DsmResult K :=
   let inflowPerPeriod := toWholePeriod it n inflow
   let sbc := cohortMul Gen.stockCohortSub inflowPerPeriod sf
-  let (obc, outflow) := computeOutflow it n inflow (pdfTable sf)
+  let (obc, outflow) := computeOutflow it n inflow pdf
   { stock := sumCohorts n sbc, inflow := inflow, outflow := outflow,
     stockByCohort := sbc, outflowByCohort := obc }
+
+/-- `InflowDrivenDSM.compute` with the outflow table derived from the survival table -/
+def inflowDriven (it : Nat → K) (n : Nat) (inflow : Nat → Nat → K) (sf : Nat → Nat → Nat → K) :
+    DsmResult K :=
+  inflowDrivenWith it n inflow sf (pdfTable sf)
 
 /-- `_compute_inflow_manual`: forward substitution, row by row; `fuel` rows are computed -/
 def inflowWholePeriodManual (stock : Nat → Nat → K) (sf : Nat → Nat → Nat → K) (j : Nat) :
@@ -126,13 +132,17 @@ def inflowWholePeriodManual (stock : Nat → Nat → K) (sf : Nat → Nat → Na
 def sdInflowWP (n : Nat) (stock : Nat → Nat → K) (sf : Nat → Nat → Nat → K) : Nat → Nat → K :=
   fun t j => (inflowWholePeriodManual stock sf j n).getD t 0
 
-/-- the rest of `StockDrivenDSM.compute`, given the whole-period inflow `iwp` -/
-def stockDrivenFrom (it : Nat → K) (n : Nat) (stock : Nat → Nat → K) (sf : Nat → Nat → Nat → K)
+/-- the rest of `StockDrivenDSM.compute`, given the whole-period inflow `iwp` and the tables -/
+def stockDrivenFromWith (it : Nat → K) (n : Nat) (stock : Nat → Nat → K) (sf pdf : Nat → Nat → Nat → K)
     (iwp : Nat → Nat → K) : DsmResult K :=
   let inflow := toAnnual it n iwp
   let sbc := cohortMul Gen.sdCohortSub (toWholePeriod it n inflow) sf
-  let (obc, outflow) := computeOutflow it n inflow (pdfTable sf)
+  let (obc, outflow) := computeOutflow it n inflow pdf
   { stock := stock, inflow := inflow, outflow := outflow, stockByCohort := sbc, outflowByCohort := obc }
+
+def stockDrivenFrom (it : Nat → K) (n : Nat) (stock : Nat → Nat → K) (sf : Nat → Nat → Nat → K)
+    (iwp : Nat → Nat → K) : DsmResult K :=
+  stockDrivenFromWith it n stock sf (pdfTable sf) iwp
 
 /-- `StockDrivenDSM.compute` with the manual solver -/
 def stockDriven (it : Nat → K) (n : Nat) (stock : Nat → Nat → K) (sf : Nat → Nat → Nat → K) :
